@@ -66,6 +66,15 @@ def welcome_json(cfg):
     return json.dumps(w, sort_keys=True)
 
 
+def bad_client_version(cv):
+    """the exception class `client_version[0]`, `client_version[1]` raises, or None"""
+    try:
+        cv[0]; cv[1]
+        return None
+    except Exception as e:
+        return type(e).__name__
+
+
 def op_line(op):
     """op dict -> line for the model driver"""
     k = op["op"]
@@ -97,7 +106,14 @@ def op_line(op):
         if t == "bind":
             if "client_version" in m:
                 cv = m["client_version"]
-                impl, ver = tok_val(cv[0]), tok_val(cv[1])
+                bad = bad_client_version(cv)
+                if bad:
+                    # outside the model's domain (client_version must be a sequence of >= 2
+                    # items): Python raises while indexing it, after the connection was bound
+                    # and before anything is written; the driver composes exactly that
+                    impl, ver = "!" + bad, "-"
+                else:
+                    impl, ver = tok_val(cv[0]), tok_val(cv[1])
             else:
                 impl = ver = "-"
             return head + "bind %s %s %s %s" % (g("appid"), g("side"), impl, ver)
